@@ -282,6 +282,19 @@ def build(names):
     return prog
 
 
+def build_with_hole(names, hole):
+    """Like build, but the innermost hole is filled with the given statements."""
+    ids = Ids()
+
+    def go(idx):
+        if idx >= len(names):
+            return list(hole)
+        ph = ("hole", idx)
+        body = TBY[names[idx]]([ph], ids)
+        return subst(body, ph, go(idx + 1))
+    return [("mark", 0)] + go(0) + [("mark", 9999)]
+
+
 def subst(x, ph, inner):
     if isinstance(x, list):
         out = []
